@@ -66,7 +66,8 @@ func (ri *rootInfo) of(fn *ssa.Function) map[*ssa.Function]bool {
 					seen[p] = true
 					work = append(work, p)
 				}
-			} else {
+			} else if f.Synthetic == "" || f == fn {
+				// (synthetic pointer-receiver/bound wrappers nobody calls are artefacts, not roots)
 				roots[f] = true
 			}
 		}
